@@ -3,7 +3,9 @@
 //
 // case:  KIND SAME  ARENA T D SEGS CAPS SEL  ARENA T D SEGS CAPS SEL
 //   SAME=1: both pointers are selected in message A (the second message is "_ 0 0 _ - SEL")
-//   CAPS: capability table as client ids (0 = nil client), "-" = empty; SEL: r | f<i>
+//   CAPS: capability table, "-" = empty; entries: 0 = nil *Client, k>0 = live client k,
+//         n = promised client whose promise was fulfilled with nil (resolved to the null
+//         capability), r<k> = promised client resolved to client k; SEL: r | f<i>
 // obs:   RES RLA RLB SPEC TREEA TREEB
 //   RES  = Equal under the case's limits (T|F|E|panic), RLA/RLB the remaining traversal budgets
 //   SPEC = Equal under generous limits when both walked trees are complete (what value_eq of
@@ -11,6 +13,7 @@
 package main
 
 import (
+	"context"
 	"errors"
 	"fmt"
 	"regexp"
@@ -46,16 +49,46 @@ func client(id int) *capnp.Client {
 	return c
 }
 
+// promHook: the hook of a promised client (never called).
+type promHook struct{}
+
+func (promHook) Send(_ context.Context, s capnp.Send) (*capnp.Answer, capnp.ReleaseFunc) {
+	return capnp.ErrorAnswer(s.Method, errors.New("promHook")), func() {}
+}
+func (promHook) Recv(_ context.Context, r capnp.Recv) capnp.PipelineCaller {
+	r.Reject(errors.New("promHook"))
+	return nil
+}
+func (promHook) Brand() capnp.Brand { return capnp.Brand{} }
+func (promHook) Shutdown()          {}
+
+// tableEntry builds the *Client of one capability-table token.
+func tableEntry(tok string) *capnp.Client {
+	switch {
+	case tok == "n":
+		c, p := capnp.NewPromisedClient(promHook{})
+		p.Fulfill(nil)
+		return c
+	case strings.HasPrefix(tok, "r"):
+		k, _ := strconv.Atoi(tok[1:])
+		c, p := capnp.NewPromisedClient(promHook{})
+		p.Fulfill(client(k).AddRef())
+		return c
+	}
+	k, _ := strconv.Atoi(tok)
+	return client(k)
+}
+
 type side struct {
 	m    *rd.Msg
-	caps []int
+	caps []string
 	sel  string
 }
 
 func (s *side) String() string {
 	c := "-"
 	if len(s.caps) > 0 {
-		c = Ints(s.caps)
+		c = strings.Join(s.caps, ",")
 	}
 	return s.m.Header() + " " + c + " " + s.sel
 }
@@ -67,7 +100,7 @@ func parseSide(f []string) *side {
 	}
 	s.m = rd.ParseHeader(f[:4])
 	if f[4] != "-" && f[4] != "_" {
-		s.caps = ParseInts(f[4])
+		s.caps = strings.Split(f[4], ",")
 	}
 	return s
 }
@@ -76,8 +109,8 @@ func (s *side) build(T uint64, D uint) *capnp.Message {
 	m := *s.m
 	m.T, m.D = T, D
 	msg := m.Build()
-	for _, id := range s.caps {
-		msg.CapTable = append(msg.CapTable, client(id))
+	for _, tok := range s.caps {
+		msg.CapTable = append(msg.CapTable, tableEntry(tok))
 	}
 	return msg
 }
@@ -177,8 +210,40 @@ func observe(same bool, a, b *side) string {
 	return fmt.Sprintf("%s %d %d %s %s %s", res, rla, rlb, spec, ta, tb)
 }
 
+// ---------------------------------------------------------------- boundary sizes
+// bigMsg: root -> struct with dw data words (leading words = lead, rest zero) and pc pointers
+// (pointer 0 = empty struct when firstPtr).  The list-based model is quadratic on such structs,
+// so "big" cases only compare Equal with the answer the generator expects (kind big/T or big/F).
+func bigMsg(dw, pc int, lead []uint64, firstPtr bool) []byte {
+	body := make([]uint64, dw+pc)
+	copy(body, lead)
+	if firstPtr && pc > 0 {
+		body[dw] = rd.StructPtr(-1, 0, 0)
+	}
+	return rd.Words(append([]uint64{rd.StructPtr(0, uint16(dw), uint16(pc))}, body...)...)
+}
+
+func observeBig(kind string, a, b *side) string {
+	want := "F"
+	if strings.HasPrefix(kind, "big/T") {
+		want = "T"
+	}
+	got := equalObs(a.build(genT, 0), b.build(genT, 0), "r", "r")
+	back := equalObs(b.build(genT, 0), a.build(genT, 0), "r", "r")
+	if got == want && back == want {
+		if strings.Contains(kind, "/d") {
+			return "big " + got // data-big: the model side evaluates value_eq on the decoded values
+		}
+		return "big"
+	}
+	return "big-FAIL:" + got + back + "/want=" + want
+}
+
 func runLine(line string) string {
 	f := strings.Fields(line)
+	if len(f) == 14 && strings.HasPrefix(f[0], "big") {
+		return observeBig(f[0], parseSide(f[2:8]), parseSide(f[8:14]))
+	}
 	if len(f) != 14 {
 		return "bad-case"
 	}
@@ -189,13 +254,74 @@ func runLine(line string) string {
 var limitsT = []uint64{0, 0, 0, 0, 0, 8, 16, 64, 200, 1024, 1 << 20}
 var limitsD = []uint{0, 0, 0, 0, 0, 1, 2, 3, 4, 5, 6, 8, 64, 70}
 
-func randCaps(r *Rand) []int {
+func randCaps(r *Rand) []string {
 	n := r.Pick(2, 1, 2, 3, 2)
-	c := make([]int, n)
+	c := make([]string, n)
 	for i := range c {
-		c[i] = r.Intn(4)
+		switch r.Pick(6, 1, 1) {
+		case 0:
+			c[i] = strconv.Itoa(r.Intn(4))
+		case 1:
+			c[i] = "n"
+		default:
+			c[i] = "r" + strconv.Itoa(1+r.Intn(3))
+		}
 	}
 	return c
+}
+
+// copyTokens: the capability table of a deep copy, as tokens: every copied entry is AddRef() of
+// the source's, i.e. nil for a nil entry or a client resolved to null, else the resolved client.
+func copyTokens(tab []*capnp.Client) []string {
+	out := make([]string, len(tab))
+	for i, c := range tab {
+		out[i] = "0"
+		if c == nil {
+			continue
+		}
+		for k := 1; k < 8; k++ {
+			if c.IsSame(client(k)) {
+				out[i] = strconv.Itoa(k)
+			}
+		}
+		if out[i] == "0" && !c.IsSame(nil) {
+			panic("copied capability is neither null nor a known client")
+		}
+	}
+	return out
+}
+
+// deepCopy copies the root of (segs, caps) into a fresh message and returns its segments and table.
+func deepCopy(r *Rand, a *side) (segs [][]byte, caps []string, ok bool) {
+	defer func() {
+		if e := recover(); e != nil {
+			segs, caps, ok = nil, nil, false
+		}
+	}()
+	src := a.build(genT, 0)
+	p, err := src.Root()
+	if err != nil {
+		return nil, nil, false
+	}
+	msg, _, err := capnp.NewMessage(capnp.MultiSegment(nil))
+	if err != nil {
+		return nil, nil, false
+	}
+	if r.Bool() {
+		msg, _, _ = capnp.NewMessage(capnp.SingleSegment(nil))
+	}
+	if err := msg.SetRoot(p); err != nil {
+		return nil, nil, false
+	}
+	n := msg.NumSegments()
+	for i := int64(0); i < n; i++ {
+		sg, err := msg.Segment(capnp.SegmentID(i))
+		if err != nil {
+			return nil, nil, false
+		}
+		segs = append(segs, append([]byte(nil), sg.Data()...))
+	}
+	return segs, copyTokens(msg.CapTable), true
 }
 
 func run(out *Out, r *Rand, tier string, replay []string) {
@@ -207,7 +333,7 @@ func run(out *Out, r *Rand, tier string, replay []string) {
 		out.Close("replay")
 		return
 	}
-	n := 4500
+	n := 3500
 	if tier == "thorough" {
 		n = 40000
 	}
@@ -229,10 +355,57 @@ func run(out *Out, r *Rand, tier string, replay []string) {
 			m.T, m.D = limitsT[r.Intn(len(limitsT))], limitsD[r.Intn(len(limitsD))]
 		}
 	}
+	// boundary sizes: structs of 32767 / 32768 / 65535 data words and 32768 / 65535 pointers
+	for _, dw := range []int{32767, 32768, 65535} {
+		x := r.U64() | 1
+		for _, eq := range []bool{true, false} {
+			y, kind := x, "big/T"
+			if !eq {
+				y, kind = x^2, "big/F"
+			}
+			a := &side{m: &rd.Msg{Segs: [][]byte{bigMsg(dw, 2, []uint64{x}, true)}, Arena: "M"}, sel: "r"}
+			b := &side{m: &rd.Msg{Segs: [][]byte{bigMsg([]int{1, 40000, 65535}[r.Intn(3)], 1, []uint64{y}, true)}, Arena: "M"}, sel: "r"}
+			kind = fmt.Sprintf("%s/d%d", kind, dw)
+			line := fmt.Sprintf("%s 0 %s %s", kind, a.String(), b.String())
+			out.Case("big", line, observeBig(kind, a, b), "big", true)
+		}
+	}
+	for _, pc := range []int{32768, 65535} {
+		for _, eq := range []bool{true, false} {
+			kind := "big/T"
+			if !eq {
+				kind = "big/F"
+			}
+			a := &side{m: &rd.Msg{Segs: [][]byte{bigMsg(1, pc, []uint64{7}, true)}, Arena: "M"}, sel: "r"}
+			b := &side{m: &rd.Msg{Segs: [][]byte{bigMsg(1, 1, []uint64{7}, eq)}, Arena: "M"}, sel: "r"}
+			line := fmt.Sprintf("%s/p%d 0 %s %s", kind, pc, a.String(), b.String())
+			out.Case("big", line, observeBig(kind, a, b), "big", true)
+		}
+	}
 	for i := 0; i < n; i++ {
 		g := &vt.Gen{R: r, Budget: 6 + r.Intn(30), Caps: r.Intn(4) == 0}
 		pad := []int{0, 3, 6}[r.Intn(3)]
-		switch r.Pick(12, 5, 3, 3) {
+		switch r.Pick(12, 5, 3, 3, 2) {
+		case 4: // a value with capabilities (live, nil, promised and resolved) and its deep copy
+			g.Caps = true
+			v := g.Struct(1 + r.Intn(3))
+			if !v.HasCap() {
+				v.Ptrs = append(v.Ptrs, &vt.Val{K: vt.KCap, Cap: uint32(r.Intn(3))})
+			}
+			sa, ha, ok := vt.Encode(r, pad, v)
+			if !ok {
+				continue
+			}
+			a := &side{m: &rd.Msg{Segs: sa, Arena: "M"}, sel: "r", caps: randCaps(r)}
+			for len(a.caps) < 3 {
+				a.caps = append(a.caps, []string{"n", "r2", "1", "0"}[r.Intn(4)])
+			}
+			sb, cb, ok := deepCopy(r, a)
+			if !ok {
+				continue
+			}
+			b := &side{m: &rd.Msg{Segs: sb, Arena: "M"}, sel: "r", caps: cb}
+			emit("capcopy/eq-same/"+ha+"-copy", false, a, b)
 		case 0: // a value and a mutation of it, each in a random layout, two messages
 			v := g.Struct(1 + r.Intn(4))
 			v2, mut := vt.Mutate(r, v)
